@@ -3,6 +3,7 @@ package main
 import (
 	"fmt"
 	"go/token"
+	"go/types"
 	"sort"
 	"strings"
 
@@ -25,13 +26,21 @@ type hdrObj struct {
 	FromFileInfo bool
 	Create       ssa.Instruction
 	Uses         []ssa.Instruction
+	// a header obtained from a module factory (a function returning a header
+	// it created): Inner is the object inside the factory, Root the call's
+	// result; fields the caller does not set keep the factory's definitions
+	Inner *hdrObj
 }
+
+// factoryCalls: call instructions recognised as header creations through a
+// factory (filled by headerObjects; used for stable numbering in key).
+var factoryCalls = map[ssa.Instruction]bool{}
 
 func (h *hdrObj) key(c *Ctx) string {
 	n := 0
 	k := 0
 	forEachInstr(h.Fn, func(in ssa.Instruction) {
-		if isHeaderCreate(in) {
+		if isHeaderCreate(in) || factoryCalls[in] {
 			n++
 			if in == h.Create {
 				k = n
@@ -54,6 +63,88 @@ func isHeaderCreate(in ssa.Instruction) bool {
 
 // headerObjects lists header objects created in the given functions.
 func headerObjects(c *Ctx, fns []*ssa.Function) []*hdrObj {
+	direct := directHeaderObjects(c, fns)
+	// factories: a function that returns the one header it created
+	factory := map[*ssa.Function]*hdrObj{}
+	ambiguous := map[*ssa.Function]bool{}
+	for _, h := range direct {
+		returned := false
+		for _, u := range h.Uses {
+			if _, ok := u.(*ssa.Return); ok {
+				returned = true
+			}
+		}
+		if !returned {
+			continue
+		}
+		if factory[h.Fn] != nil {
+			ambiguous[h.Fn] = true
+		}
+		factory[h.Fn] = h
+	}
+	for fn := range ambiguous {
+		delete(factory, fn)
+	}
+	var outer []*hdrObj
+	sites := map[*hdrObj]int{}
+	storing := map[*hdrObj]int{}
+	for _, fn := range fns {
+		forEachInstr(fn, func(in ssa.Instruction) {
+			call, ok := in.(*ssa.Call)
+			if !ok {
+				return
+			}
+			sc := call.Call.StaticCallee()
+			inner := factory[sc]
+			if sc == nil || inner == nil {
+				return
+			}
+			var root ssa.Value = call
+			if _, isTuple := call.Type().(*types.Tuple); isTuple {
+				root = nil
+				for _, ref := range *call.Referrers() {
+					if ex, ok := ref.(*ssa.Extract); ok && ex.Index == 0 {
+						root = ex
+					}
+				}
+			}
+			if root == nil || root.Referrers() == nil {
+				return
+			}
+			sites[inner]++
+			stores := false
+			for _, ref := range *root.Referrers() {
+				if fa, ok := ref.(*ssa.FieldAddr); ok {
+					for _, r2 := range *fa.Referrers() {
+						if st, ok := r2.(*ssa.Store); ok && st.Addr == ssa.Value(fa) {
+							stores = true
+						}
+					}
+				}
+			}
+			if !stores {
+				return
+			}
+			storing[inner]++
+			factoryCalls[call] = true
+			h := &hdrObj{Fn: fn, Root: root, Kind: inner.Kind, FromFileInfo: inner.FromFileInfo, Create: call, Inner: inner}
+			h.findUses(c)
+			outer = append(outer, h)
+		})
+	}
+	var out []*hdrObj
+	for _, h := range direct {
+		// a factory whose every caller completes the header is checked at
+		// the call sites, not at its return
+		if sites[h] > 0 && storing[h] == sites[h] {
+			continue
+		}
+		out = append(out, h)
+	}
+	return append(out, outer...)
+}
+
+func directHeaderObjects(c *Ctx, fns []*ssa.Function) []*hdrObj {
 	var out []*hdrObj
 	for _, fn := range fns {
 		forEachInstr(fn, func(in ssa.Instruction) {
@@ -84,6 +175,36 @@ func headerObjects(c *Ctx, fns []*ssa.Function) []*hdrObj {
 			h.findUses(c)
 			out = append(out, h)
 		})
+	}
+	return out
+}
+
+// valueOf: the value a definition stores, with a factory's parameter replaced
+// by the argument of the call that created this header.
+func (h *hdrObj) valueOf(st *ssa.Store) ssa.Value {
+	if h.Inner == nil || st.Parent() != h.Inner.Fn {
+		return st.Val
+	}
+	if prm, ok := st.Val.(*ssa.Parameter); ok {
+		if call, ok := h.Create.(*ssa.Call); ok {
+			for i, p := range h.Inner.Fn.Params {
+				if p == prm && i < len(call.Call.Args) {
+					return call.Call.Args[i]
+				}
+			}
+		}
+	}
+	return st.Val
+}
+
+func (h *hdrObj) innerReturns() []ssa.Instruction {
+	var out []ssa.Instruction
+	if h.Inner != nil {
+		for _, u := range h.Inner.Uses {
+			if _, ok := u.(*ssa.Return); ok {
+				out = append(out, u)
+			}
+		}
 	}
 	return out
 }
@@ -134,9 +255,12 @@ func (h *hdrObj) findUses(c *Ctx) {
 // fieldStores returns the stores to root.<field>.
 func (h *hdrObj) fieldStores(field string) []*ssa.Store {
 	var out []*ssa.Store
+	if h.Inner != nil {
+		out = append(out, h.Inner.fieldStores(field)...)
+	}
 	refs := h.Root.Referrers()
 	if refs == nil {
-		return nil
+		return out
 	}
 	for _, ref := range *refs {
 		fa, ok := ref.(*ssa.FieldAddr)
@@ -152,11 +276,34 @@ func (h *hdrObj) fieldStores(field string) []*ssa.Store {
 	return out
 }
 
+func (h *hdrObj) localFieldStores(field string) []*ssa.Store {
+	inner := h.Inner
+	h.Inner = nil
+	out := h.fieldStores(field)
+	h.Inner = inner
+	return out
+}
+
 // reaching computes which definitions of root.<field> can reach `at`.
 // The synthetic initial definition (zero value, or the FileInfoHeader model)
 // is included unless every path to `at` passes an explicit store.
 func (h *hdrObj) reaching(field string, at ssa.Instruction) (defs []*ssa.Store, initial bool) {
-	stores := h.fieldStores(field)
+	defs, initial = h.reachingLocal(field, at)
+	if initial && h.Inner != nil {
+		initial = false
+		for _, u := range h.innerReturns() {
+			d2, i2 := h.Inner.reaching(field, u)
+			defs = append(defs, d2...)
+			if i2 {
+				initial = true
+			}
+		}
+	}
+	return defs, initial
+}
+
+func (h *hdrObj) reachingLocal(field string, at ssa.Instruction) (defs []*ssa.Store, initial bool) {
+	stores := h.localFieldStores(field)
 	byBlock := map[*ssa.BasicBlock][]*ssa.Store{}
 	for _, st := range stores {
 		byBlock[st.Block()] = append(byBlock[st.Block()], st)
@@ -264,7 +411,7 @@ func (h *hdrObj) classAt(at ssa.Instruction) map[string]bool {
 					walk(x.X, d+1)
 				}
 			}
-			walk(st.Val, 0)
+			walk(h.valueOf(st), 0)
 			if strings.Contains(s, " 16384") {
 				cls = "DIR"
 			}
@@ -284,7 +431,7 @@ func (h *hdrObj) classAt(at ssa.Instruction) map[string]bool {
 		out["FILE"] = true // zero Typeflag is a regular file
 	}
 	for _, st := range defs {
-		k, ok := st.Val.(*ssa.Const)
+		k, ok := h.valueOf(st).(*ssa.Const)
 		if !ok || k.Value == nil {
 			out["?"] = true
 			continue
@@ -310,12 +457,48 @@ type hdrPair struct{ A, B *ssa.Store }
 // reachingPairs is the product form of reaching: which combinations of
 // definitions of root.<fa> and root.<fb> can reach `at` on one path.
 func (h *hdrObj) reachingPairs(fa, fb string, at ssa.Instruction) []hdrPair {
+	local := h.reachingPairsLocal(fa, fb, at)
+	if h.Inner == nil {
+		return local
+	}
+	var inner []hdrPair
+	for _, u := range h.innerReturns() {
+		inner = append(inner, h.Inner.reachingPairs(fa, fb, u)...)
+	}
+	seen := map[hdrPair]bool{}
+	var out []hdrPair
+	for _, p := range local {
+		if p.A != nil && p.B != nil {
+			if !seen[p] {
+				seen[p] = true
+				out = append(out, p)
+			}
+			continue
+		}
+		for _, q := range inner {
+			n := p
+			if n.A == nil {
+				n.A = q.A
+			}
+			if n.B == nil {
+				n.B = q.B
+			}
+			if !seen[n] {
+				seen[n] = true
+				out = append(out, n)
+			}
+		}
+	}
+	return out
+}
+
+func (h *hdrObj) reachingPairsLocal(fa, fb string, at ssa.Instruction) []hdrPair {
 	isA := map[*ssa.Store]bool{}
 	isB := map[*ssa.Store]bool{}
-	for _, st := range h.fieldStores(fa) {
+	for _, st := range h.localFieldStores(fa) {
 		isA[st] = true
 	}
-	for _, st := range h.fieldStores(fb) {
+	for _, st := range h.localFieldStores(fb) {
 		isB[st] = true
 	}
 	type state map[hdrPair]bool
@@ -403,11 +586,11 @@ func (h *hdrObj) reachingPairs(fa, fb string, at ssa.Instruction) []hdrPair {
 
 // typeflagClass names the member class of a constant Typeflag definition
 // (nil = zero value = regular file).
-func typeflagClass(st *ssa.Store) string {
+func (h *hdrObj) typeflagClass(st *ssa.Store) string {
 	if st == nil {
 		return "FILE"
 	}
-	k, ok := st.Val.(*ssa.Const)
+	k, ok := h.valueOf(st).(*ssa.Const)
 	if !ok || k.Value == nil {
 		return "?"
 	}
